@@ -328,6 +328,10 @@ func describeParts(ps []Part) []string {
 
 func describeScript(sc *Script) map[string]interface{} {
 	m := map[string]interface{}{"label": sc.label(), "probe_method": sc.ProbeMethod, "has_valid_answer": sc.HasValid, "foreign_id_answer": sc.Foreign, "same_id_odd_frame": sc.SameIDOdd}
+	if sc.Expect != "" {
+		m["same_id_family_expectation"] = sc.Expect
+		m["notification_handler_requested"] = !sc.NoHandler
+	}
 	if sc.Post != nil {
 		m["post_response"] = map[string]interface{}{"status": sc.Post.Status, "headers": sc.Post.Headers, "mode": sc.Post.Mode, "cl_delta": sc.Post.CLDelta, "no_terminating_chunk": sc.Post.NoTerm, "hold_open": sc.Post.Hold, "body": describeParts(sc.Post.Body)}
 	}
